@@ -223,9 +223,9 @@ func finalizeAll(runs []*caseRun, quiet bool) {
 }
 
 // runPool runs cases with par of them in flight, then waits for quiescence.
-func runPool(phase string, cases []*caseDesc, par int) {
+func runPool(phase string, cases []*caseDesc, par int) []*caseRun {
 	if len(cases) == 0 || abortRun.Load() {
-		return
+		return nil
 	}
 	caselog.Log(map[string]any{"phase": phase, "cases": len(cases), "first": cases[0], "seed": rep.Seed})
 	runs := make([]*caseRun, len(cases))
@@ -255,6 +255,7 @@ func runPool(phase string, cases []*caseDesc, par int) {
 			rep.Count("judged:"+phase, 1)
 		}
 	}
+	return runs
 }
 
 func split(cases []*caseDesc) (fast, slow []*caseDesc) {
@@ -609,12 +610,14 @@ func main() {
 		rep.Violation("poolsan-"+r.Kind, what, w)
 	})
 	sched.On("forward.result.delivered", hook)
-	rep.SetRule("one case = one Forward.Exec (or tag-subset exec) call on in-memory upstreams: |U| x concurrent x outcome per queried upstream {NOERROR,NXDOMAIN,SERVFAIL,REFUSED,error,garbage,never} x arrival order (forced through the forward.result.delivered hook) x point at which the caller's ctx ends {never, before the call, before the first arrival, between arrivals}; thorough enumerates |U| 1..4 x c {-1,0,1,2,3,5} x 7^n x n! x cancel points completely, plus sampled tag subsets / wider |U|,c; 'storm' cases release all upstreams at once and are judged against the union over orders; non-trivial = at least 2 exchanges whose outcomes differ, or a ctx that ends while exchanges are outstanding; distinct = list length, c, subset, arrival outcome sequence, order, cancel point; 'errpaths' phase: 12 Forward instances used in parallel (9 by one caller, 3 by 2-3 callers at once), every call drawn from query classes {12 packable size/shape classes from 47 bytes to > 64 KiB, 14 classes that cannot be packed: bad label/name/rcode/rdata early, late, beyond the 8 KiB scratch, beyond 64 KiB} x upstream outcomes {mostly good, all fail} x caller ctx {never ends, ended before, ends at the first upstream}; each round starts with error-path calls run one at a time; upstreams identify the call by its unique question name and compare bytes; distinct = class, |U|, c, callers, ctx, outcome vector")
+	rep.SetRule("one case = one Forward.Exec (or tag-subset exec) call on in-memory upstreams: |U| x concurrent x outcome per queried upstream {NOERROR,NXDOMAIN,SERVFAIL,REFUSED,error,garbage,never} x arrival order (forced through the forward.result.delivered hook) x point at which the caller's ctx ends {never, before the call, before the first arrival, between arrivals}; thorough enumerates |U| 1..4 x c {-1,0,1,2,3,5} x 7^n x n! x cancel points completely, plus sampled tag subsets / wider |U|,c; 'storm' cases release all upstreams at once and are judged against the union over orders; non-trivial = at least 2 exchanges whose outcomes differ, or a ctx that ends while exchanges are outstanding; distinct = list length, c, subset, arrival outcome sequence, order, cancel point; 'errpaths' phase: 12 Forward instances used in parallel (9 by one caller, 3 by 2-3 callers at once), every call drawn from query classes {12 packable size/shape classes from 47 bytes to > 64 KiB, 14 classes that cannot be packed: bad label/name/rcode/rdata early, late, beyond the 8 KiB scratch, beyond 64 KiB} x upstream outcomes {mostly good, all fail} x caller ctx {never ends, ended before, ends at the first upstream}; each round starts with error-path calls run one at a time; upstreams identify the call by its unique question name and compare bytes; distinct = class, |U|, c, callers, ctx, outcome vector; 'rcode-space' phase: every rcode 0..4095 (header nibble + OPT extended byte) as the first reply to arrive with a NOERROR/NXDOMAIN reply arriving later (n = 2, 3; directly or after a failing exchange; replies with/without OPT) and as the reply of the last exchange when nothing good arrived (n = 1..3), ordered cases judged by the same oracle, the returned rcode compared on all 12 bits; 'boundary-sizes' phase: queries built to an exact size (EDNS0 padding) at every size within +-3 (thorough +-8) of 512, 1232, 8191, 65535 and each power of two 128..65536, the size applying to the packed / packed-with-compression / uncompressed length, compared byte-for-byte at every queried upstream")
 	rep.Assume("'arrives' = the helper goroutine's result has been taken by (or abandoned for) the collecting loop; observed through the add-only hook forward.result.delivered, which fires after that select")
 	rep.Assume("liveness clauses are restated as progress within watchdogs >= 10 s while the harness holds every other upstream (never releases it), 50 s for an upstream ctx that should end after 5 s")
 	rep.Assume("a message that cannot be packed has no wire form: whatever Exec does with it is accepted as long as nothing reaches an upstream, the call returns and the buffer pool is used correctly")
+	rep.Assume("a NOERROR or NXDOMAIN reply is one whose full 12-bit rcode (header bits | OPT extended-rcode byte << 4, RFC 6891) is 0 or 3")
 	rep.Assume("'random start' is only checked for non-degeneracy (more than one / every position occurs as start)")
 	selfCheck()
+	edgeSelfCheck()
 
 	if rep.ReplayFile != "" {
 		var d replayDoc
@@ -671,6 +674,8 @@ func main() {
 		ordered = append(ordered, wideCase(rng, "ordered"))
 	}
 	runOrdered("ordered", ordered)
+	rcodeSpacePhase()
+	boundarySizePhase()
 
 	var storm []*caseDesc
 	for i := 0; i < rep.Pick(800, 20000); i++ {
